@@ -496,7 +496,12 @@ def run_verus(gen_path: str, linemap: dict, meta: dict, unit: str, rlimit: float
         # code location.  Origin 'proof'/'spec'/'inv' => proof-internal (lemma call, proof assert).
         code_origins = {"code", "sig"}
         if kind == "post":
-            # primary = failed ensures clause; the function is the one containing it
+            # primary = failed ensures clause; the function is the one containing it -- for a clause of a
+            # TRAIT method's contract the body being verified is named by the secondary span
+            if fn == "?":
+                others = [e for e, l in zip(encl, all_lines) if e != "?" and l != line]
+                if others:
+                    fn = others[0]
             in_extracted = origin == "post"
             is_contract_lemma = fn in meta["contract_lemmas"]
             if in_extracted or is_contract_lemma:
